@@ -20,7 +20,7 @@ TITLE = 'i18n message ids, mappings, context'
 LEVEL = 'exploration'
 SHARDS = {'quick': 16, 'thorough': 16}
 FLOOR = {'quick': 1000, 'thorough': 15000}
-REQUIRED_MONITORS = {'templates-compared': 2000, 'translate-calls-compared': 3000, 'macro-layer-compared': 200,
+REQUIRED_MONITORS = {'templates-compared': 2000, 'translate-calls-compared': 3000, 'macro-layer-compared': 200, 'abandoned-settings-compared': 300,
                      'implicit-layer-compared': 200, 'message-objects-compared': 200}
 RULE = ('a case = (generated i18n element tree of depth <= 3 with the statements above, binding (v in {plain, hostile, empty}, '
         'lang in {it, None}), translation function in {rewriting, identity}); non-trivial iff >=1 translate call predicted; '
@@ -69,7 +69,9 @@ def gen(rng, depth, in_tr):
         if k < .45 and depth < 3:
             kids.append(gen(rng, depth + 1, in_tr or 'translate' in st))
         elif k < .8:
-            kids.append(rng.choice(['text', ' two  words ', '\n  line\n', 'x &amp; y', 'é', ' ', '\n   ', '\n']))
+            kids.append(rng.choice(['text', ' two  words ', '\n  line\n', 'x &amp; y', 'é', ' ', '\n   ', '\n',
+                                    # white space is white space: no-break and typographic spaces, form feed, line separator ...
+                                    'Bonjour\xa0 !', 'a\u2003 b', '\x0c x\x0b', 'p\u2028q \x85', '\xa0', '\u202f\n']))
         else:
             kids.append('${v}')
     return El(rng.choice(['p', 'b', 'i']), kids, **st)
@@ -341,7 +343,7 @@ def layer_implicit(ctx, n):
     rng = ctx.rng
     T = make_T('rewriting')
     for case in range(n):
-        texts = [rng.choice(['Hello  world', ' padded ', 'x', '\n  multi\n  line ', 'é']) for _ in range(rng.randint(1, 3))]
+        texts = [rng.choice(['Hello  world', ' padded ', 'x', '\n  multi\n  line ', 'é', 'Bonjour\xa0 !', '\u2003x\xa0']) for _ in range(rng.randint(1, 3))]
         attrs = rng.choice([None, 'title', 'TITLE', 'alt'])
         aval, aval_r = rng.choice([('Tip  text', 'Tip  text'), ('Tip ${v}', 'Tip V'), ('${v}', 'V')])
         explicit = rng.choice([None, None, '', ' tid']) if attrs else None
@@ -461,12 +463,59 @@ def layer_messages(ctx, n):
                           % (src, known, out, log, exp, want_log), {'kind': 'msg', 'src': src})
 
 
+
+def layer_abandoned_settings(ctx, n):
+    """An element that sets the domain / context / target language and is then abandoned (its body or the very
+    expression of i18n:target fails, tal:on-error takes over): translations AFTER the element - and the fallback's own
+    surroundings - see the settings of the enclosing element again, never a half-evaluated or left-over one."""
+    from chameleon import PageTemplate
+    rng = ctx.rng
+    for case in range(n):
+        kind = rng.choice(['target-expression-fails-half-way', 'target-set-then-body-fails', 'domain-set-then-body-fails',
+                           'context-set-then-body-fails', 'target-expression-yields-object'])
+        outer = rng.choice([None, 'fr', 'it'])
+        calls = []
+
+        def tr(msgid, domain=None, mapping=None, context=None, target_language=None, default=None):
+            calls.append((msgid, domain, context, target_language))
+            return '[%s]' % msgid
+        if kind == 'target-expression-fails-half-way':
+            inner = '<p tal:on-error="string:E" i18n:target="string:${first}_${nosuchname}"><b i18n:translate="">in</b></p>'
+            inner_calls = []
+        elif kind == 'target-set-then-body-fails':
+            inner = '<p tal:on-error="string:E" i18n:target="\'de\'"><b i18n:translate="">in</b>${1/0}</p>'
+            inner_calls = [('in', None, None, 'de')]
+        elif kind == 'domain-set-then-body-fails':
+            inner = '<p tal:on-error="string:E" i18n:domain="dd"><b i18n:translate="">in</b>${1/0}</p>'
+            inner_calls = [('in', 'dd', None, outer)]
+        elif kind == 'context-set-then-body-fails':
+            inner = '<p tal:on-error="string:E" i18n:context="cc"><b i18n:translate="">in</b>${1/0}</p>'
+            inner_calls = [('in', None, 'cc', outer)]
+        else:
+            inner = '<p i18n:target="string:${first}"><b i18n:translate="">in</b></p>'
+            inner_calls = [('in', None, None, 'de')]
+        src = '<r><i i18n:translate="">before</i>%s<i i18n:translate="">after</i></r>' % inner
+        want_calls = [('before', None, None, outer)] + inner_calls + [('after', None, None, outer)]
+        body = '<p>E</p>' if 'on-error' in inner else '<p><b>[in]</b></p>'
+        want = '<r><i>[before]</i>%s<i>[after]</i></r>' % body
+        try:
+            got = PageTemplate(src, translate=tr)(first='de', target_language=outer)
+        except Exception as e:
+            got = 'RAISED %s: %s' % (type(e).__name__, str(e).split('\n')[0][:100])
+        ctx.mon('abandoned-settings-compared')
+        ctx.case(key=('abandoned', kind, outer), nontrivial=True)
+        if got != want or calls != want_calls:
+            ctx.violation('translation-settings-after-an-abandoned-element', 'template %r rendered with target_language=%r: %r, calls %r; expected %r, calls %r' % (
+                src, outer, got, calls, want, want_calls), {'src': src, 'env': {'v': 'V', 'lang': None}})
+
+
 def run(ctx):
     monitors.install(ctx, tokalg=False)
     layer_trees(ctx, 700 if ctx.quick else 4000)
     layer_macros(ctx, 60 if ctx.quick else 300)
     layer_implicit(ctx, 60 if ctx.quick else 300)
     layer_messages(ctx, 60 if ctx.quick else 300)
+    layer_abandoned_settings(ctx, 30 if ctx.quick else 300)
 
 
 def replay(data):
